@@ -58,6 +58,10 @@ func c02(args []string) int {
 			out.Count("meta_"+kind, 1)
 		}
 		restore := p.S.Apply()
+		if idx%2 == 0 {
+			poolHistory(idx)
+			out.Count("cases_after_pool_history", 1)
+		}
 		res := x.Run(p)
 		restore()
 		h, nontriv := c02Judge(out, f, idx, p, &res, kind)
